@@ -634,7 +634,7 @@ impl World {
         }
         self.set_block(env.round, env.epoch);
         verif_hooks::with(|h| {
-            h.budget = Some(env.budget.unwrap_or(5_000_000));
+            h.budget = Some(env.budget.unwrap_or(200_000));
             h.continue_queries = 0;
             h.forced_seeds = VecDeque::from(env.seeds.clone());
             h.fresh_randoms = 0;
